@@ -441,6 +441,25 @@ pub fn directed(names: &[String]) -> Vec<Trace> {
         steps.push(rec("a change of several preferences in the preference files"));
         v.push(mk(format!("pref-files-change-{}", name), steps));
     }
+    // 2g. a user preference file exists (a normal deployment) and initialisation goes wrong in different ways
+    {
+        let user = || Step::Env(EnvEvent::WriteUserPrefs { content: "---\n  Speech:\n    Verbosity: Terse\n    SpeechStyle: SimpleSpeak\n  Braille:\n    BrailleCode: \"UEB\"\n".into() });
+        let sets = || vec![Step::Call(Op::SetPref("NavMode".into(), "Simple".into())), Step::Call(Op::SetPref("Verbosity".into(), "Verbose".into())), Step::Call(Op::SetPref("TTS".into(), "SSML".into())), Step::Call(Op::SetPref("Language".into(), "es".into()))];
+        for (name, pre) in [
+            ("getter-before-init", vec![Step::Call(Op::Speech)]),
+            ("init-parent-of-rules", vec![Step::Call(Op::SetRulesDir("/sim/A".into()))]),
+            ("good-init-then-parent-of-rules", vec![Step::Call(Op::SetRulesDir(MOUNT_A.into())), Step::Call(Op::SetMathml(ExprRef::Pool(3))), Step::Call(Op::SetRulesDir("/sim/A".into()))]),
+            ("good-init-then-a-file", vec![Step::Call(Op::SetRulesDir(MOUNT_A.into())), Step::Call(Op::SetRulesDir("/sim/A/Rules/prefs.yaml".into()))]),
+            ("set-preference-before-init", vec![Step::Call(Op::SetPref("Rate".into(), "200".into()))]),
+        ] {
+            let mut steps = vec![user()];
+            steps.extend(pre);
+            steps.extend(sets());
+            steps.push(Step::Call(Op::Speech));
+            steps.push(rec("a wrong initialisation while a user preference file exists"));
+            v.push(mk(format!("user-prefs-file-{}", name), steps));
+        }
+    }
     // 2f. every pool expression (incl. the regression section) through every output, navigation and routing call, under
     //     every braille code; and its own output fed back
     for (ci, code) in pools::BRAILLE_CODES.iter().enumerate() {
